@@ -61,6 +61,18 @@ def render(rng, v, base, sep=False, lead=0, upper_prefix=False, neg_zero=False):
     if upper_prefix: pre = pre.upper()
     return ("-" if (v < 0 or neg_zero) else "") + pre + ds
 
+def limb_values(rng, t, n):
+    """values whose decimal text has a proper prefix that is a multiple of 2^64 / 2^128 / 2^192 (an all-zero low limb with a
+    non-zero higher limb while digits are still being accumulated): m * 2^(64 j) * 10^e (+ d)"""
+    out = []
+    if bits(t) < 128: return out
+    for _ in range(n):
+        j = rng.randint(1, bits(t) // 64 - 1)
+        v = (rng.choice([1, 1, 2, 3, 5, 7]) << (64 * j)) * 10 ** rng.randint(1, 8) + rng.choice([0, 0, 0, 1, 7, 90])
+        if rng.random() < 0.3 and signed(t): v = -v
+        out.append(v)
+    return out
+
 def values_for(rng, t, n_random):
     vs = [lo(t) - 1, lo(t), lo(t) + 1, hi(t) - 1, hi(t), hi(t) + 1, 0, 1, -1]
     for _ in range(n_random):
@@ -80,6 +92,8 @@ def values_for(rng, t, n_random):
 def gen_cases(rng, per_type):
     cases = []
     for t in TYPES:
+        for v in limb_values(rng, t, 4):
+            cases.append(dict(t=t, v=v, base="dec", lit=render(rng, v, "dec"), pos=rng.choice(POS), form="tok", limb=True))
         vals = values_for(rng, t, per_type)
         for i, v in enumerate(vals):
             base = rng.choice(["dec", "dec", "hex", "hex", "oct", "bin"]) if i >= 6 else ["dec", "hex", "oct", "bin"][rng.randrange(4)]
@@ -300,7 +314,7 @@ def main(run):
     runnable = [c for c in cases if c["acc"] and (c["form"] == "tok" or spaced_value_gate(c))]
     if not thorough:
         # quick tier: all boundary-adjacent cases and a sample of the rest
-        near = [c for c in runnable if min(abs(c["v"] - lo(c["t"])), abs(c["v"] - hi(c["t"]))) <= 3 or c.get("lead") or c.get("corpus")]
+        near = [c for c in runnable if min(abs(c["v"] - lo(c["t"])), abs(c["v"] - hi(c["t"]))) <= 3 or c.get("lead") or c.get("corpus") or c.get("limb")]
         rest = [c for c in runnable if c not in near]
         runnable = near + run.rng.sample(rest, min(len(rest), 160))
     groups = [runnable[i:i + 20] for i in range(0, len(runnable), 20)]
